@@ -56,6 +56,7 @@ pub const DEFAULT_POOL_WAIT_SEC: u64 = 5;
 #[cfg(feature = "breard_r_acmed_verif")]
 pub const DEFAULT_POOL_WAIT_SEC: u64 = 0;
 pub const DEFAULT_HTTP_FAIL_NB_RETRY: usize = 10;
+pub const DEFAULT_HTTP_MAX_REDIRECT: usize = 10;
 #[cfg(not(feature = "breard_r_acmed_verif"))]
 pub const DEFAULT_HTTP_FAIL_WAIT_SEC: u64 = 1;
 #[cfg(feature = "breard_r_acmed_verif")]
